@@ -5,7 +5,11 @@ import subprocess
 
 
 def _run(cmd, cwd=None, env=None, timeout=3600):
-    p = subprocess.run(cmd, cwd=cwd, env=env, stdout=subprocess.PIPE, stderr=subprocess.PIPE, text=True, timeout=timeout)
+    try:
+        p = subprocess.run(cmd, cwd=cwd, env=env, stdout=subprocess.PIPE, stderr=subprocess.PIPE, text=True, timeout=timeout)
+    except subprocess.TimeoutExpired as e:
+        so = e.stdout if isinstance(e.stdout, str) else (e.stdout or b"").decode("utf-8", "replace")
+        return 124, so, f"TIMEOUT after {timeout} s (the real code did not return): {' '.join(map(str, cmd))[:200]}"
     return p.returncode, p.stdout, p.stderr
 
 
@@ -21,7 +25,11 @@ def mem_sweep(tier, seed, WORK, ROOT, REPO, GOENV):
     if rc != 0 or rc2 != 0 or missing:
         out["broken"].append(("api-coverage", "harness/mem.go memAPI",
                               "exported functions without a memory-effect driver: " + ", ".join(missing) + err + err2))
-    rc, so, se = _run([harness, "mem", "-tier", tier, "-seed", str(seed)])
+    rc, so, se = _run([harness, "mem", "-tier", tier, "-seed", str(seed)], timeout=2400)
+    if rc == 124:
+        out["violations"].append({"kind": "impl-vs-spec", "op": "mem-sweep", "class": "hang", "impl": se, "model": "every call returns",
+                                  "replay": f"{harness} mem -tier {tier} -seed {seed}"})
+        return out
     try:
         res = json.loads(so)
     except Exception:
@@ -50,8 +58,11 @@ def race_run(tier, seed, WORK, ROOT, REPO, GOENV):
     scen = set()
     for i, (w, r) in enumerate(runs):
         rc, so, se = _run([binp, "conc", "-workers", str(w), "-rounds", str(r), "-seed", str(seed + i)],
-                          env=dict(os.environ, GORACE="halt_on_error=1 exitcode=66"))
+                          env=dict(os.environ, GORACE="halt_on_error=1 exitcode=66"), timeout=900)
         cmd = f"{binp} conc -workers {w} -rounds {r} -seed {seed + i}"
+        if rc == 124:
+            out["violations"].append({"kind": "impl-vs-spec", "op": "conc", "class": "hang", "impl": se, "model": "every call returns (no deadlock)", "replay": cmd})
+            continue
         if rc == 66 or "DATA RACE" in se:
             out["violations"].append({"kind": "impl-vs-spec", "op": "race", "class": "conc", "impl": se[-1500:], "model": "no data race", "replay": cmd})
             continue
